@@ -93,6 +93,44 @@ func init() {
 			_, err = atree.NewMapWithRootID(w.Storage, atree.SlabIDUndefined, atree.NewDefaultDigesterBuilder())
 		case "store":
 			err = w.Storage.Store(atree.SlabIDUndefined, nil)
+		case "open.absent", "open.nonroot":
+			// a well-formed identifier that names no container: nothing stored under it, or a slab that is not the
+			// root of a value (a non-root data / index slab, an external collision group, a large-value slab).
+			// The property names no error type for these; demanded: an error (no panic), and no trace.
+			id := RegID{1, 1<<50 + st.Pos%1000}
+			if st.Sub == "open.nonroot" {
+				l, verr := w.ViewLedger()
+				if verr != nil {
+					return nil
+				}
+				var cands []RegID
+				for _, x := range l.SortedIDs() {
+					if raw := l.Regs[x]; len(raw) >= 2 && raw[1]&0x80 == 0 {
+						cands = append(cands, x)
+					}
+				}
+				if len(cands) == 0 {
+					return nil
+				}
+				id = cands[int(st.Pos%uint64(len(cands)))]
+				w.Stats.Inc("reject.open-nonroot")
+			}
+			var e1, e2 error
+			func() {
+				defer func() {
+					if r := recover(); r != nil {
+						e1 = nil
+						e2 = fmt.Errorf("panic: %v", r)
+					}
+				}()
+				_, e1 = atree.NewArrayWithRootID(w.Storage, id.SlabID())
+				_, e2 = atree.NewMapWithRootID(w.Storage, id.SlabID(), atree.NewDefaultDigesterBuilder())
+			}()
+			if e1 == nil || e2 == nil || (e2 != nil && len(e2.Error()) > 6 && e2.Error()[:6] == "panic:") {
+				return w.viol("reject.category", "opening %s, which names no container (%s), as array / as map: %v / %v; want an error from both", id, st.Sub, e1, e2)
+			}
+			w.result("badid")
+			return nil
 		default:
 			err = w.Storage.Remove(atree.SlabIDUndefined)
 		}
@@ -103,7 +141,7 @@ func init() {
 		return nil
 	}
 	extraGens["badid"] = func(g *Gen) (Step, bool) {
-		return Step{Op: "badid", Sub: []string{"open.arr", "open.map", "store", "remove"}[g.R.Intn(4)]}, true
+		return Step{Op: "badid", Sub: []string{"open.arr", "open.map", "store", "remove", "open.absent", "open.nonroot", "open.nonroot"}[g.R.Intn(7)], Pos: g.R.U64() % (1 << 32)}, true
 	}
 
 	// lookupfault: enumerate every k-th callback failure of one lookup
